@@ -205,6 +205,14 @@ func c06Gen(tier string, r *rand.Rand) []Case {
 	add("error", c06In{Mode: "error", N: 4, T: 1, Lens: []int{48, 48}, Signers: []int{0, 4}})
 	add("error", c06In{Mode: "error", N: 4, T: 1, Lens: []int{48, 48}, Signers: []int{-1, 2}})
 	add("error", c06In{Mode: "error", N: 4, T: 1, Lens: []int{48, 47}, Signers: []int{0, 2}})
+	// wrong lengths that cancel over the flattened list, and a wrong length exactly at position t / t+1
+	for _, ls := range [][]int{{47, 49}, {49, 47}, {0, 96}, {96, 0}, {48, 49}, {48, 96}, {48, 0, 48}, {48, 48, 47}, {48, 47, 49}} {
+		sg := []int{0, 2, 3}[:len(ls)]
+		add("error-cancelling-lengths", c06In{Mode: "error", N: 4, T: 1, Lens: ls, Signers: sg})
+	}
+	add("error-cancelling-lengths", c06In{Mode: "error", N: 5, T: 2, Lens: []int{48, 48, 49}, Signers: []int{0, 2, 3}})
+	add("error-cancelling-lengths", c06In{Mode: "error", N: 5, T: 2, Lens: []int{48, 48, 0, 48}, Signers: []int{0, 2, 3, 4}})
+	add("error-cancelling-lengths", c06In{Mode: "error", N: 5, T: 2, Lens: []int{48, 48, 48, 49}, Signers: []int{0, 2, 3, 4}})
 	// indices that are out of range as integers but whose low byte is a valid index (the library
 	// narrows indices to a byte internally); the same list is first offered to the stateful API
 	for _, big := range []int{256, 257, 259, 512 + 1, 65536 + 2, -256, -255, -254, 1 << 40, -(1 << 40) + 1} {
